@@ -261,9 +261,14 @@ def register_dataclass_type_with_jax_tree_util(data_class):
         keys, values = zip(*[(k, v) for k, v in items if type(v) is not int])
         return values, (keys, static)
 
-    unflatten = lambda aux, values: data_class(
-        **dict(zip(aux[0], values)), **dict(aux[1])
-    )
+    def unflatten(aux, values):
+        state = dict(zip(aux[0], values), **dict(aux[1]))
+        obj = data_class(**state)
+        # Restore attributes that are not constructor arguments (populated caches such as
+        # lnZ and mu), so that unflatten(flatten(x)) has the same tree structure as x.
+        obj.__dict__.update(state)
+        return obj
+
     try:
         jax.tree_util.register_pytree_node(
             nodetype=data_class, flatten_func=flatten, unflatten_func=unflatten
